@@ -16,7 +16,7 @@ import numpy as np
 LEVEL = "exploration"
 EXHAUSTIVE = {"quick": False, "thorough": False}
 RULE = (
-    "registry of 100 call forms (arithmetic, comparisons, astype/img_as/to_trichromatic(return_image=True)/to_monochromatic, "
+    "registry of 106 call forms (arithmetic, comparisons, astype/img_as/to_trichromatic(return_image=True)/to_monochromatic, "
     "subregion/time_slice/time_interval/slice, weight, superpose, stack, append, Resize/resize/equalize_voxel_size/"
     "uniform_refinement, reduce_axis/extrude_along_axis, models, Geometry.integrate/normalize, EMD, wasserstein_distance, "
     "zeros_like/ones_like, bounding_box, random_patches, coordinate conversions, layout helpers, Image(...) built from "
@@ -138,6 +138,12 @@ def build_registry(darsia, rng):
     add("to_trichromatic_bgr", [Of], lambda: Of.to_trichromatic("BGR", return_image=True))
     add("to_trichromatic_same", [O], lambda: O.to_trichromatic("RGB", return_image=True))
     add("to_monochromatic_gray", [O], lambda: O.to_monochromatic("gray"))
+    big = (int(rng.integers(20, 30)), int(rng.integers(20, 30)))
+    for cs_ in ("RGB", "BGR", "HSV"):
+        for dt_ in (np.uint8, np.float32):
+            Og = img2(big, dtype=dt_, payload="vector", cls=darsia.OpticalImage, dims=[2.0, 3.0])
+            Og.color_space = cs_
+            add(f"add_grid_{cs_}_{np.dtype(dt_).name}", [Og], lambda Og=Og: Og.add_grid(dx=0.5, dy=0.5, thickness=1))
     add("to_monochromatic_red", [O], lambda: O.to_monochromatic("red"))
     add("to_monochromatic_value", [Of], lambda: Of.to_monochromatic("value"))
     Od = img2(shp, dtype=np.float64, payload="vector", cls=darsia.OpticalImage)
@@ -407,7 +413,7 @@ def run_shard(spec, R):
 
 MANIFEST = {
     "technique": "snapshot monitor (deep content snapshots of every argument, of all live operands in call chains, and of the global numpy/python RNG state) around a fixed registry of call forms; array-arithmetic oracle",
-    "level_text": "Every call form of a 100-entry registry is executed on several random operand sets of every image kind with all arguments and the global random state snapshotted before and compared after; random chains of up to five calls on a shared operand pool (results fed back, so that metadata containers shared between images become observable) snapshot the whole pool at every step. Arithmetic results are compared bitwise with raw-array arithmetic for the documented scalar types.",
+    "level_text": "Every call form of a 106-entry registry is executed on several random operand sets of every image kind with all arguments and the global random state snapshotted before and compared after; random chains of up to five calls on a shared operand pool (results fed back, so that metadata containers shared between images become observable) snapshot the whole pool at every step. Arithmetic results are compared bitwise with raw-array arithmetic for the documented scalar types.",
     "level_note": "The registry is a fixed list (functions not in it are not observed); Image.append modifies its receiver by documentation, only its argument is judged.",
     "design_ref": "DESIGN.md section 3, C17",
 }
